@@ -672,6 +672,30 @@ def r7_value_semantics(repo: Repo, rep):
         rep.check(R, not bad, ci.module.relpath, ci.fq, "no receiver-changing in-place operator", f"defines {bad}", f"{cname}: {bad}")
 
 
+def r9_iteration_is_indexing(repo: Repo, rep):
+    R = rep.rule("R-C12-9", "iterating Points yields self[i] for i = 0 .. first axis: the items are produced by __getitem__, the one place that decides which axes a single row keeps", floor=1,
+                 why="Points(row.unsqueeze(0), space) gives every item of a table with two batch axes the shape (1, b, d) instead of (b, d): list(p)[i] != p[i], and the table cannot be rebuilt from its items")
+    P = repo.cls(PTS)
+    fi = P.methods.get("__iter__")
+    if fi is None:
+        rep.ok(R, P.module.relpath, P.fq, "no __iter__: iteration falls back to __getitem__ with 0, 1, ..", "-")
+        return
+    rep.saw(fi)
+    ys = [n for n in ast.walk(fi.node) if isinstance(n, (ast.Yield, ast.YieldFrom))]
+    if not ys:
+        rep.undecided(R, fi.site(), fi.fq, "a generator of items", "no yield")
+        return
+    for y in ys:
+        v = y.value
+        if isinstance(v, ast.Name):
+            defs = [a.value for a in ast.walk(fi.node) if isinstance(a, ast.Assign) and any(isinstance(t, ast.Name) and t.id == v.id for t in a.targets)]
+            v = defs[0] if len(defs) == 1 else v
+        if isinstance(y, ast.YieldFrom) and isinstance(v, ast.GeneratorExp):
+            v = v.elt
+        ok = isinstance(v, ast.Subscript) and dump(v.value) == "self"
+        rep.check(R, ok, fi.site(y), fi.fq, "every item is self[index]", dump(v)[:80] if v is not None else "None", dump(v)[:80] if v is not None else "None")
+
+
 def r8_no_derived_state(repo: Repo, rep):
     R = rep.rule("R-C12-8", "a Points object stores its tensor and its space, nothing derived from them; Space keeps Counter's `&` (the sub-space test compares its plain-Counter result, "
                  "order-insensitively); Points.joined refuses operands that share a variable", floor=5,
@@ -705,6 +729,7 @@ def r8_no_derived_state(repo: Repo, rep):
 def run(repo: Repo, rep):
     r7_value_semantics(repo, rep)
     r8_no_derived_state(repo, rep)
+    r9_iteration_is_indexing(repo, rep)
     r6_empty_and_slices(repo, rep)
     r1_pairing(repo, rep)
     r2_slices(repo, rep)
